@@ -120,7 +120,7 @@ def c18(thorough):
 
 
 FRAGS = ['1', '1.5', '"b"', "'q'", '(1, 2)', '[1]', "{'a': 1}", 'None', 'True', 'word', 'f(1)', 'a.b', '1+',
-         '__import__("os")', ' 2 ', '', 'x=y', 'a::b', '-3']
+         '__import__("os")', ' 2 ', '', 'x=y', 'a::b', '-3', ' word', 'word ', '\tq\n', ' ']
 
 
 def model_tp(x, parse):
@@ -151,7 +151,7 @@ def c19(thorough):
     def spy_parse(s):
         called.append(s)
         return ast.literal_eval(s)
-    frs = FRAGS if thorough else FRAGS[:14] + FRAGS[-3:]
+    frs = FRAGS if thorough else FRAGS[:14] + FRAGS[-7:]
     for sep in ('=', ':', '::', '=>'):
         for parse_keys in (True, False):
             for parse in (ast.literal_eval, raising_parse):
